@@ -1,2 +1,109 @@
 #![allow(warnings, clippy::all, clippy::pedantic, clippy::nursery)]
+//@ module: archiver::parent
 use super::*;
+use crate::error::verif_harness as vh;
+use crate::error::verif_harness::{ModelKey, NullBe};
+use crate::backend::decrypt::DecryptBackend;
+use crate::backend::node::{Metadata, NodeType};
+use crate::backend::WriteBackend;
+use crate::blob::{BlobId, BlobType, DataId};
+use crate::index::{IndexEntry, ReadIndex};
+use jiff::Timestamp;
+use std::borrow::Cow;
+use std::path::PathBuf;
+use std::sync::Arc;
+
+/// names in this harness contain no escapes; Node::name()'s unescape_filename (word-at-a-time memchr over a heap
+/// string) is what made the design-phase probe time out
+fn stub_name<'a>(n: &'a Node) -> Cow<'a, OsStr> { Cow::Borrowed(OsStr::new(&n.name)) }
+
+/// index mock: presence of a data blob is bit `id[0]` of `bits`
+#[derive(Clone, Debug)]
+struct BitIndex { bits: u8 }
+impl ReadIndex for BitIndex {
+    fn get_id(&self, _tpe: BlobType, _id: &BlobId) -> Option<IndexEntry> { None }
+    fn total_size(&self, _tpe: BlobType) -> u64 { 0 }
+    fn has(&self, tpe: BlobType, id: &BlobId) -> bool {
+        let b = crate::id::verif_harness::id0(&crate::id::Id::from(**id));
+        tpe == BlobType::Data && b < 8 && (self.bits >> b) & 1 == 1
+    }
+}
+impl ReadGlobalIndex for BitIndex {}
+
+fn any_ts() -> Option<Timestamp> {
+    match kani::any::<u8>() % 3 { 0 => None, 1 => Some(Timestamp::UNIX_EPOCH), _ => Some(Timestamp::MAX) }
+}
+fn any_meta() -> Metadata {
+    let mut m = Metadata::default();
+    m.size = kani::any();
+    m.inode = kani::any();
+    m.mtime = any_ts();
+    m.ctime = any_ts();
+    m
+}
+fn file_node(name: &str, meta: Metadata, content: Option<Vec<DataId>>) -> Node {
+    Node { name: name.to_string(), node_type: NodeType::File, meta, content, subtree: None }
+}
+fn did(b: u8) -> DataId { DataId::from(vh::mk_id(b)) }
+
+//@ harness: c11_parent_match_file
+//@ prop: C11
+//@ tier: quick
+//@ timeout: 1500
+//@ mem: 16
+//@ unwindset: ^memcmp#0=34
+//@ kernel: Parent::{process (file branch), is_parent, p_node}, ParentResult::map
+//@ bound: one parent tree with two file nodes "a" and "c" (each: symbolic size, inode, mtime/ctime in {none, epoch, max}, one content id whose index presence is symbolic), cursor at 0; a current file node named "a", "b", "c" or "d" (symbolic choice) with symbolic metadata; ignore_ctime / ignore_inode symbolic; one call of process()
+//@ oracle: Matched => the parent node has the same name and type, equal size and mtime and (unless ignored) compatible ctime, every content id of it is in the index, and the node's content is the parent's; a same-named parent node with different size or mtime is never Matched; a name the parent tree does not have (at or after the cursor) gives NotFound; a parent whose blobs are partly missing in the index is not Matched (file is re-read)
+//@ stub: Node::name -> the stored name without unescaping (names here contain no escapes); Backtrace::capture
+//@ outside: directories (set_dir loads subtrees from the backend), several parents, parent selection, tree equality of the two backups end to end (archiver pipeline), escaped names
+#[kani::proof]
+#[kani::unwind(6)]
+#[kani::stub(std::backtrace::Backtrace::capture, crate::error::verif_harness::stub_backtrace_capture)]
+#[kani::stub(crate::backend::node::Node::name, stub_name)]
+pub(crate) fn c11_parent_match_file() {
+    let pa = any_meta();
+    let pc = any_meta();
+    let bits: u8 = kani::any();
+    let index = BitIndex { bits };
+    let nodes = vec![file_node("a", pa.clone(), Some(vec![did(1)])), file_node("c", pc.clone(), Some(vec![did(2)]))];
+    let ignore_ctime: bool = kani::any();
+    let ignore_inode: bool = kani::any();
+    let mut parent = Parent { tree_ids: Vec::new(), trees: vec![(Tree { nodes }, 0)], stack: Vec::new(), ignore_ctime, ignore_inode };
+    let be = DecryptBackend::new(Arc::new(NullBe::new()) as Arc<dyn WriteBackend>, ModelKey);
+    let cur = any_meta();
+    let which: u8 = kani::any();
+    kani::assume(which < 4);
+    let name = match which { 0 => "a", 1 => "b", 2 => "c", _ => "d" };
+    let node = file_node(name, cur.clone(), None);
+    let item = TreeType::Other((PathBuf::new(), node, ()));
+    let r = parent.process(&be, &index, item);
+    let (out_node, res) = match r { Ok(TreeType::Other((_, n, ((), res)))) => (n, res), _ => { assert!(false, "process failed"); return; } };
+    let p_meta = if which == 0 { Some((&pa, 1u8)) } else if which == 2 { Some((&pc, 2u8)) } else { None };
+    match (&res, p_meta) {
+        (ParentResult::Matched(()), Some((p, idb))) => {
+            assert!(p.size == cur.size && p.mtime == cur.mtime);
+            assert!(ignore_ctime || p.ctime.is_none() || cur.ctime.is_none() || p.ctime == cur.ctime);
+            assert!((bits >> idb) & 1 == 1);
+            // (compared element-wise: building a Vec for the comparison gave a spurious, non-replayable counterexample)
+            assert!(out_node.content.as_ref().map_or(false, |c| c.len() == 1 && crate::id::verif_harness::id0(&crate::id::Id::from(*c[0])) == idb));
+            kani::cover!(true, "file reused from the parent");
+        }
+        (ParentResult::Matched(()), None) => assert!(false, "matched a name the parent does not have"),
+        (ParentResult::NotFound, Some((p, idb))) => {
+            // found by name: NotFound is only reported when blobs are missing (re-read)
+            assert!((bits >> idb) & 1 == 0);
+            assert!(out_node.content.is_none());
+            kani::cover!(true, "parent blobs missing: file is read again");
+        }
+        (ParentResult::NotFound, None) => { assert!(out_node.content.is_none()); }
+        (ParentResult::NotMatched, Some((p, _))) => {
+            assert!(out_node.content.is_none());
+            // completeness where the statement is unambiguous: identical size, mtime, ctime and inode must match
+            assert!(!(p.size == cur.size && p.mtime == cur.mtime && p.ctime == cur.ctime && p.inode == cur.inode));
+            kani::cover!(p.size != cur.size, "changed size is detected");
+        }
+        (ParentResult::NotMatched, None) => assert!(false, "NotMatched for a name the parent does not have"),
+    }
+    std::mem::forget(out_node); std::mem::forget(parent); std::mem::forget(be);
+}
